@@ -136,3 +136,31 @@ Proof.
   split; [|vm_compute; intuition discriminate].
   eexists. split; [vm_compute; reflexivity|]. vm_compute. reflexivity.
 Qed.
+
+(* ---------------- a message that cannot be rendered is not signed ----------------
+   T1: signMessage checks the pre-render's error directly after mw.writeMsg(m) (flag regenerated from
+   the source on every run; false on a tree without the repair "S/MIME signing fails when the message
+   cannot be rendered for signing") *)
+Theorem C08_t1_sign_checks_prerender_error : Gen.sign_checks_prerender_error = true.
+Proof. exact (eq_refl true). Qed.
+Print Assumptions C08_t1_sign_checks_prerender_error.
+
+(* with a failing part / embed / attachment producer WriteTo signs nothing and writes nothing: error,
+   count 0, no output — on every destination *)
+Theorem C08_failing_producer_signed : forall (signer : bytes -> bytes) date msgid rb sb (m : msg) (k : sink),
+  msg_has_failing_producer m = true ->
+  let r := write_to_signed signer date msgid rb sb m k in
+  s_err r = true /\ s_n r = 0%nat /\ s_out r = [] /\ s_input r = None /\ s_panic r = false.
+Proof. exact failing_producer_signed. Qed.
+Print Assumptions C08_failing_producer_signed.
+
+(* the code before the repair ignored the pre-render's error: in this (static producer) model it then
+   wrote the multipart/signed message up to the failing producer; with a source that fails on its
+   first call only (outside the static model; harness variant "flaky") the real code signed the
+   truncated pre-render, emitted the complete part and returned nil — a message that does not verify *)
+Theorem C08_prerender_error_before_fix_refuted : exists m : msg,
+  msg_has_failing_producer m = true /\
+  let r := write_to_signed_before_fix (fun _ => bs "SIG") (bs "d") (bs "i") [] (bs "SB") m unlimited in
+  s_input r <> None /\ s_out r <> [] /\ Nat.ltb 0 (s_n r) = true.
+Proof. exact prerender_error_before_fix_refuted. Qed.
+Print Assumptions C08_prerender_error_before_fix_refuted.
